@@ -445,6 +445,7 @@ func c02Entries() []c02Entry {
 // a decoder that writes the wrong shape into the destination can make the comparison itself fault: the cases run
 // in a child process; a crash is reported with the case that was running and the run goes on behind it
 func runC02(o *Out) {
+	slicePoolProbe(o, "C02")
 	self, _ := os.Executable()
 	startAll := time.Now()
 	skip := 0
